@@ -349,4 +349,28 @@ int vsnprintf(char *str, size_t size, const char *format, va_list ap)
     }
     return r;
 }
+/* ==== formatted output into caller buffers (spif_mbuff_show) ========================
+ * Format semantics are NOT modelled (NA): these stubs check that the destination is a writable
+ * location (snprintf: for the stated size) and leave the destination contents as they are - the units
+ * that use them claim nothing about the produced text, and cbmc treats the never-initialised scratch
+ * buffer as arbitrary anyway.  Units that want them define VERIF_MB_FMTSTUBS. */
+#ifdef VERIF_MB_FMTSTUBS
+int snprintf(char *str, size_t size, const char *format, ...)
+{
+    __CPROVER_assert(format != NULL, "snprintf: format not NULL");
+    if (size > 0) __CPROVER_assert(__CPROVER_w_ok(str, size), "snprintf: destination writeable for size bytes");
+    return nondet_int();
+}
+int sprintf(char *str, const char *format, ...)
+{
+    __CPROVER_assert(format != NULL, "sprintf: format not NULL");
+    __CPROVER_assert(__CPROVER_w_ok(str, 1), "sprintf: destination writeable (extent of the output: NA)");
+    return nondet_int();
+}
+char *strcat(char *dst, const char *src)
+{
+    __CPROVER_assert(__CPROVER_w_ok(dst, 1) && __CPROVER_r_ok(src, 1), "strcat: arguments valid (extent of the output: NA)");
+    return dst;
+}
+#endif
 #endif
